@@ -14,7 +14,8 @@ RULE = ("ammunition generated with baseline velocity 100..1500 m/s and powder te
         "measurement with either sign of dv (1..200 m/s) and dT (1..60 C); 6 query temperatures -60..70 C in any unit; "
         "a separate part fires short shots with and without Atmo(powder_t=...); non-trivial = sensitivity enabled and "
         "a query temperature different from the baseline (law part) or enabled sensitivity with powder temperature "
-        "different from the baseline (fire part); distinct = distinct case dicts")
+        "different from the baseline (fire part, optionally after the same calculator fired the same ammunition in other air); "
+        "distinct = distinct case dicts")
 ASSUMPTIONS = ["velocities/temperatures are compared in m/s and Celsius as read through the library's own unit "
                "conversion (whose correctness is C06)", "relative tolerance 1e-9"]
 
